@@ -34,7 +34,7 @@ ASSUMPTIONS = [
 PROBES = ["rules_total", "cat_accessible", "cat_tuned", "cat_failed", "all_three_in_one_run", "tuned_via_variable", "tuned_literal",
           "nested_depth_3", "nested_rule_tuned", "premium_runs", "default_bg_runs", "shared_var_sheet", "root_direct_color",
           "fallback_used", "important_present", "prop_case_present", "alpha_text_tuned", "api_calls", "dir_invocation",
-          "mode0", "mode1", "mode2", "report_present", "subprocess_crosscheck", "multi_file_runs", "inplace_model_evaluated", "inplace_model_matched", "real_interpreter_runs", "non_utf8_locale_runs", "second_invocation_in_process_runs", "invoked_from_non_main_thread", "directory_named_like_a_stylesheet", "long_var_chain"]
+          "mode0", "mode1", "mode2", "report_present", "subprocess_crosscheck", "multi_file_runs", "inplace_model_evaluated", "inplace_model_matched", "real_interpreter_runs", "non_utf8_locale_runs", "second_invocation_in_process_runs", "invoked_from_non_main_thread", "directory_named_like_a_stylesheet", "long_var_chain", "already_processed_with_other_settings", "longer_stale_output_present"]
 
 C08_FEATURES = tuple(f for f in gen.ALL_FEATURES if f not in gen.C09_ONLY)
 
@@ -61,12 +61,21 @@ def generate(rseed, tier, idx):
     env = {"cwd": e.choice(("cwd", "cwd", "tree")), "tty": e.random() < 0.3, "argform": e.choice(("abs", "abs", "rel")),
            "inv": e.choice(("file", "file", "dir")), "name": e.choice(("a.css", "style.css", "my style.css", "thème.css", "a.css", "normalize.css/normalize.css", "site.css.d/main.css", "cafe\u0301.css"))}
     env["in_thread"] = e.random() < 0.08  # the command called from a worker thread of a larger program
+    # a longer <name>_cm.css is already there (the stylesheet used to be longer: its old self twice over, untuned)
+    env["stale_out"] = e.random() < 0.1
     tr = {"prop": ID, "ast": ast, "feats": feats, "settings": settings, "env": env, "subproc": idx % 16 == 3}
     if g.random() < 0.2:
         # the judged invocation is the SECOND one in its process (a wrapper script, a test harness, a watch loop):
         # an earlier invocation over another stylesheet, with its own fixes and failures, ran just before it
         wf = gen.draw_features(g, C08_FEATURES, 0.3)
         tr["warmup"] = {"ast": gen.gen_sheet(g, wf, settings, max_rules=4, tag="W"), "settings": _settings(g)}
+    if g.random() < 0.15 and not tr.get("warmup"):
+        # the same tree was already processed once with OTHER settings (another --default-bg, mode or strictness): its outputs
+        # and report are still there when the judged invocation runs (each invocation is its own process)
+        ps = _settings(g)
+        if ps == settings:
+            ps = dict(settings, default_bg=g.choice(("black", "#222", "navy")) if not settings.get("default_bg") else None)
+        tr["prior"] = {k: v for k, v in ps.items() if v is not None or k == "mode"}
     if idx % 12 == 7:
         # executed by a real interpreter under a non-UTF-8 locale (or, as a control, a UTF-8 one)
         env["real"] = e.choice(("C", "C", "utf8"))
@@ -276,14 +285,13 @@ def inplace_model_matches(sheets, settings, cards, fail_keys, out_texts, cache):
     return True
 
 
-def _best_ratio(text, bg, alpha_text):
-    """Reference contrast; for translucent text the composite is only defined to within 1.5 units
-    (C13), so the most favourable colour within +-2 units per channel is judged."""
-    r = refs.contrast(text, bg)
-    if alpha_text:
-        for d in (-2, 2):
-            r = max(r, refs.contrast(tuple(max(0, min(255, c + d)) for c in text), bg))
-    return r
+def _best_ratio(text, bg, alpha_text, alpha_bg=False):
+    """Reference contrast; for a translucent text or background the composite is only defined to within 1.5 units
+    (C13: the library truncates where the reference rounds), so the most favourable colour within +-2 units per channel
+    is judged."""
+    texts = [text] + ([tuple(max(0, min(255, c + d)) for c in text) for d in (-2, 2)] if alpha_text else [])
+    bgs = [bg] + ([tuple(max(0, min(255, c + d)) for c in bg) for d in (-2, 2)] if alpha_bg else [])
+    return max(refs.contrast(t, b) for t in texts for b in bgs)
 
 
 def _two_invocations(root, warmup, target, settings, env, order_key):
@@ -328,7 +336,20 @@ def execute(trace):
             with open(pth, "wb") as fh:
                 fh.write(text.encode("utf-8"))
         name, text = sheets[0]
+        if env.get("stale_out"):
+            with open(os.path.join(tdir, name[:-4] + "_cm.css"), "wb") as fh:
+                fh.write((text + "\n" + text + "\n" + "/* old */\n" * 20).encode("utf-8"))
+            bump("longer_stale_output_present")
         target = "tree/" + name if (env["inv"] == "file" and not multi) else "tree"
+        if trace.get("prior"):
+            base.in_fork(cli_run.cli_exec, root, target, trace["prior"], cwd_rel=env["cwd"], order_key=trace.get("order_key"),
+                         argform=env["argform"], timeout=200)
+            bump("already_processed_with_other_settings")
+            # (the earlier run's report is removed: a run that adjusts nothing writes none and leaves an old one alone)
+            try:
+                os.unlink(os.path.join(root, env["cwd"], "cm_colors_report.html"))
+            except OSError:
+                pass
         if env.get("real") and not multi:
             res = cli_run.cli_exec_real(root, target, settings, cwd_rel=env["cwd"], argform=env["argform"], locale_mode=env["real"])
             bump("real_interpreter_runs")
@@ -468,7 +489,7 @@ def execute(trace):
             if rf["alpha_text"]:
                 bump("alpha_text_tuned")
             after_rgb = refs.css_rgb(c["after"]) if c["after"] else None
-            ori = o_by_sel.get(sel, [None])[0]
+            ori = o_by_sel.get(sel, [None])[-1]  # (should the written file hold the selector twice, the later block is what applies)
             if ori is None:
                 V("reported-not-written", rf, selector=sel[1], file=sel[0], note="rule has no text colour in the written file")
                 continue
@@ -477,7 +498,7 @@ def execute(trace):
                 V("reported-not-written", rf, selector=sel[1], file=sel[0], reported_after=c["after"], written_value=ori.color_value,
                   written_effective=ori.eff_text, written_rgb=w_text)
             if w_text is not None and w_bg is not None:
-                ratio = _best_ratio(w_text, w_bg, _is_alpha(ori))
+                ratio = _best_ratio(w_text, w_bg, _is_alpha(ori), _is_alpha_bg(ori))
                 if refs.near_threshold(ratio, (target_ratio,)):
                     skipped += 1
                 elif ratio < target_ratio:
@@ -505,7 +526,7 @@ def execute(trace):
             if ri is None:
                 continue
             rf = dict(feats_of[sel], **sheet_feats)
-            ori = o_by_sel.get(sel, [None])[0]
+            ori = o_by_sel.get(sel, [None])[-1]  # (should the written file hold the selector twice, the later block is what applies)
             same = ori is not None and _decl_nf(ri, "color") == _decl_nf(ori, "color")
             changed_props = [n for n in ri.var_refs if _defs_nf(defs_of[sel].get(n)) != _defs_nf(odefs_of.get(sel, {}).get(n))]
             if not same or changed_props:
@@ -518,7 +539,7 @@ def execute(trace):
             if rk in card_sels or rk in fail_sels:
                 continue
             rf = dict(feats_of[rk], **sheet_feats)
-            ori = o_by_sel.get(rk, [None])[0]
+            ori = o_by_sel.get(rk, [None])[-1]
             if ori is None:
                 V("accessible-fails-target", rf, selector=ri.selector, note="rule lost its text colour in the written file")
                 continue
@@ -529,7 +550,7 @@ def execute(trace):
                     V("accessible-fails-target", rf, selector=ri.selector, note="counted as already readable but its colours are not valid",
                       text=ori.eff_text, bg=ori.eff_bg)
                 continue
-            ratio = _best_ratio(w_text, w_bg, _is_alpha(ori))
+            ratio = _best_ratio(w_text, w_bg, _is_alpha(ori), _is_alpha_bg(ori))
             if refs.near_threshold(ratio, (target_ratio,)):
                 skipped += 1
             elif ratio < target_ratio and A_ + T_ + F_ == len(crules):
@@ -596,6 +617,11 @@ def _subprocess_crosscheck(root, name, text, target, settings, env, res, out_ent
                                        p.stderr.decode("utf-8", "replace")[-300:]))
     finally:
         base.rm_tree(r2)
+
+
+def _is_alpha_bg(ri):
+    a = refs.css_rgba(ri.eff_bg) if getattr(ri, "eff_bg", None) else None
+    return bool(a and a[3] < 1.0)
 
 
 def _is_alpha(ri):
